@@ -88,7 +88,9 @@ func (r *Reassembler) PushMessage(msg *auparse.AuditMessage) {
 		return
 	}
 
+	verifYield("push:put")
 	r.list.Put(msg)
+	verifYield("push:cleanup")
 	evicted, lost := r.list.CleanUp()
 	r.callback(evicted, lost)
 }
@@ -111,9 +113,11 @@ func (r *Reassembler) Push(typ auparse.AuditMessageType, rawData []byte) error {
 // periodically to evict timed-out events. It returns a non-nil error if
 // the Reassembler has been closed.
 func (r *Reassembler) Maintain() error {
+	verifYield("maintain:check")
 	if atomic.LoadInt32(&r.closed) == 1 {
 		return errReassemblerClosed
 	}
+	verifYield("maintain:cleanup")
 	evicted, lost := r.list.CleanUp()
 	r.callback(evicted, lost)
 	return nil
@@ -121,7 +125,9 @@ func (r *Reassembler) Maintain() error {
 
 // Close flushes any cached events and closes the Reassembler.
 func (r *Reassembler) Close() error {
+	verifYield("close:cas")
 	if atomic.CompareAndSwapInt32(&r.closed, 0, 1) {
+		verifYield("close:clear")
 		evicted, lost := r.list.Clear()
 		r.callback(evicted, lost)
 		return nil
@@ -131,10 +137,12 @@ func (r *Reassembler) Close() error {
 
 func (r *Reassembler) callback(events []*event, lost int) {
 	for _, e := range events {
+		verifYield("callback:event")
 		r.stream.ReassemblyComplete(e.msgs)
 	}
 
 	if lost > 0 {
+		verifYield("callback:lost")
 		r.stream.EventsLost(lost)
 	}
 }
